@@ -65,6 +65,7 @@ A0 = []
 A1 = [(b'/al', b'ali1')]
 A2 = [(b'/al/sub', b'lnk_ali2/.'), (b'/al/', b'ali1')]
 A3 = [(b'/al', b'ali1/'), (b'/al/sub', b'ali2')]
+A4 = [(b'/al', b'ali1'), (b'/sub', b'ali2')]     # the remainder of the first alias starts with the URL of the second: only the first may apply
 # (docroot as configured relative to B, listing, check_symlink, index, aliases, async)
 CONFIGS = [
     (b'root', True, True, b'index.html', A1, False),
@@ -74,7 +75,7 @@ CONFIGS = [
     (b'lroot', True, True, b'index.html', A2, True),
     (b'root', False, True, b'e.txt', A3, False),
     (b'root', True, False, b'e.txt', A0, True),
-    (b'root/a/..', True, True, b'index.html', A3, True),
+    (b'root/a/..', True, True, b'index.html', A4, True),
 ]
 
 MIME = {b'.txt': b'text/plain', b'.html': b'text/html'}
@@ -218,7 +219,7 @@ def all_segs():
         for comp in ent[1].split(b'/'):
             names.add(comp)
     names |= {b'.', b'..', b'', b'...', b'zz', b'al.', b'a.', b'..a', b'.a', b'roo', b'rootxx', b'AL', b'sbx', b'%', b'%2', b'%zz', b'a%2fb',
-              b'\x80', b'a\xffb', b'index.htm', b'e.tx', b'nonexistent'}
+              b'\x80', b'a\xffb', b'index.htm', b'e.tx', b'nonexistent', b'%61', b'%2e%2e', b'%2e', b'd%2fe.txt', b'%2561', b'\\', b'f.txt\\', b'al\\a.txt', b'..\\', b'a\\b'}
     return sorted(names)
 
 
@@ -283,7 +284,7 @@ def gen_cases(ctx):
         elif rel[0] == b'ali1' and r < 0.8:
             l = [b'al'] + rel[1:]
         elif rel[0] == b'ali2' and r < 0.8:
-            l = [b'al', b'sub'] + rel[1:]
+            l = ([b'al', b'sub'] if r < 0.55 else [b'sub']) + rel[1:]
         else:   # outside: try to climb or to go through a symlink
             l = rng.choice([[b'..'], [b'..', b'..'], [b'lup'], [b'lout', b'..'], [b'al', b'..', b'..'], [b'al', b'lback', b'..'], [b'%2e%2e']]) + rel
         for _ in range(rng.choice([0, 0, 1, 1, 2, 3])):
@@ -302,6 +303,8 @@ def gen_cases(ctx):
             raw = raw[:i] + b'%00' + raw[i:]
         elif r < 0.18:
             raw += rng.choice([b'%', b'%2', b'%zz', b'%2e', b'%2e%2e', b'/%2e%2e/%2e%2e/out/OUTSIDE_secret.txt'])
+        elif r < 0.22:
+            raw += rng.choice([b'%5c', b'\\', b'%5C%5c', b'/%5c', b'%5c/'])      # a foreign separator must stay an ordinary byte
         cases.append('rq %d %s' % (k, hexs(raw)))
     # random segment soup
     for _ in range(ctx.scale(2500, 60000)):
@@ -616,7 +619,7 @@ def run(ctx):
         ctx.coverage['rule'] = (
             'cases: np/npi/rs <hex> = file_server::normalize_path called directly (compared with the functional model, the buffer/iterator '
             'model and the textbook resolution); rq <k> <hex> = raw request target sent as GET over loopback HTTP to live service k '
-            '(8 configurations: check_symlink x listing x 0..2 aliases x sync/async) over the sandbox tree. Exhaustive: all strings of '
+            '(8 configurations: check_symlink x listing x 0..2 aliases in 5 arrangements x sync/async) over the sandbox tree. Exhaustive: all strings of '
             'length <= 8 over {a . /} and length <= 5 over {a . / NUL b} through normalize_path; thorough tier: all segment lists of length '
             '<= 2 over every name of the sandbox and length 3 over a 19-name core set, for each configuration (quick tier: a seeded 15 % / '
             '8 % of them). Random (seeded): decorated paths to every node inside and outside, segment soup, percent-encoded separators '
